@@ -45,11 +45,12 @@ Init ==
 
 Subscribe ==
   /\ phase = "new"
-  /\ LET s2 == [st EXCEPT !.live = Srcs, !.subs = Srcs] IN
+  /\ LET s2 == SubStF(m, [st EXCEPT !.live = Srcs, !.subs = Srcs]) IN
      /\ st' = s2
-     /\ h' = Append(h, [do |-> "sub", src |-> 0, n |-> C({}), exp |-> Obs(<<>>, FALSE, s2)])
+     /\ log' = log \o SubOutF(m)
+     /\ h' = Append(h, [do |-> "sub", src |-> 0, n |-> C({}), exp |-> Obs(SubOutF(m), FALSE, s2)])
   /\ phase' = "run"
-  /\ UNCHANGED <<m, closed, unsub, log, sent, psrc>>
+  /\ UNCHANGED <<m, closed, unsub, sent, psrc>>
 
 Push(s, n) ==
   /\ phase = "run" /\ Len(h) <= MaxSteps /\ s \in Srcs
@@ -78,7 +79,9 @@ Spec == Init /\ [][Next]_vars
 Done == phase = "run" /\ (Len(h) = MaxSteps + 1 \/ ((\A s \in Srcs : s \in st.ended \/ sent[s] >= MaxPerSrc) /\ (~Cuts \/ unsub)))
 
 (* ------------------------------ properties ----------------------------- *)
-Grammar == \A j \in 1..Len(log) : j < Len(log) => log[j].k = "N"
+\* (inner deliveries of higher-order outputs, kinds "I" / "IC", are not part of the outer grammar)
+Outer == SelectSeq(log, LAMBDA x : x.k \in {"N", "E", "C"})
+Grammar == \A j \in 1..Len(Outer) : j < Len(Outer) => Outer[j].k = "N"
 \* closed output => every source released
 ClosedReleasesAll == closed => st.live = {}
 TypeOK == st.live \cap st.torn = {} /\ st.live \cap st.ended = {}
